@@ -59,7 +59,7 @@ func main() {
 			"after every block: every node found under each current key and its consensus address, no key shared by two nodes, nodes-by-entity index = records, no node/runtime without entity, stake claims = exactly those implied by registered entities/nodes/runtimes; per transaction: entity/node records change only in transactions signed by that entity/node, stored node descriptors carry valid signatures of all their keys and are listed by their entity; " +
 			"non-trivial = history with >=10 successful node registrations, >=1 successful key rotation/swap and >=3 epoch transitions",
 		Cases: func(r *evid.Run) []chainsim.Case {
-			return chainsim.StdCases(r.Seed, r.Pick(96, 2400), r.Pick(60, 120), []string{"registry", "runtime", "registry", "election", "default"})
+			return chainsim.StdCases(r.Seed, r.Pick(192, 2400), r.Pick(60, 120), []string{"registry", "runtime", "registry", "election", "default"})
 		},
 		RunCase: runCase,
 		Floor:   10,
